@@ -471,6 +471,12 @@ class Stack:
         elif f == "set_value":
             g, ev, hx = a
             self.evgroups[g].values[ev] = bytes.fromhex(hx)
+        elif f == "rebind_values":
+            # a new dict object with the old contents plus this value (assigning `evgrp.values = {...}`)
+            g, ev, hx = a
+            new = dict(self.evgroups[g].values)
+            new[ev] = bytes.fromhex(hx)
+            self.evgroups[g].values = new
         elif f == "notify_once":
             g, evs = a
             self.evgroups[g].notify_once(list(evs))
